@@ -298,8 +298,10 @@ def run(pid, tier, seed):
         chosen = [] if REPLAY is not None else pools if not quick else [pools[(seed + k) % len(pools)] for k in ((0, 2, 5) if pid == "C09" else (1, 3) if pid == "C06" else (4,))]
         trace_pools = pools + ([kp] if pid in ("C06", "C09") else []) + ([] if quick or REPLAY is not None else random_pools(seed, 24))
         sim_pools = [] if REPLAY is not None else [p for p in pools] if not quick else [pools[(seed + k) % len(pools)] for k in (0, 3, 6, 7)]
+        covers = {}
         with ThreadPoolExecutor(max_workers=4) as tp:
-            f_model = [(pool, tp.submit(model_check, pool, work, "Smoothmath.cfg", False, 6)) for pool in chosen]
+            # the exhaustive run also EXPORTS a shortest history to every distinct model state (state cover)
+            f_model = [(pool, tp.submit(model_check, pool, work, "SmoothmathMC_cover.cfg", False, 6)) for pool in chosen]
             f_kf1 = tp.submit(model_check, kp, work, "Smoothmath_each.cfg", True, 4) if pid in ("C06", "C09") else None
             f_sim = {pool["name"]: tp.submit(simulate, pool, work, 6 if quick else 40, seed) for pool in sim_pools}
             for pool, f in f_model:
@@ -310,6 +312,10 @@ def run(pid, tier, seed):
                 rep.add_tlc(res)
                 counts["model_states"] += res.get("distinct", 0)
                 counts["model_transitions"] += res.get("generated", 0)
+                paths = [l["hist"] for l in res["lines"] if isinstance(l, dict) and "hist" in l]
+                if len(paths) != res.get("distinct", -1):
+                    raise Machinery(f"state cover: {len(paths)} exported histories for {res.get('distinct')} distinct states on pool {pool['name']}")
+                covers[pool["name"]] = paths
             if f_kf1 is not None:
                 # the named finding as a design-level counterexample: with rule T2 as the code has it the model must FAIL
                 counts["kf1_model_counterexample"] = f_kf1.result()["violated"] or "none"
@@ -325,6 +331,15 @@ def run(pid, tier, seed):
                 counts["simulated_behaviours"] += len(sim)
                 seqs += sim
             seqs += directed(pool, rnd, 25 if quick else 600, tier)
+            if pool["name"] in covers:
+                # STATE COVER: every reachable model state is reached on the real library by its shortest history, then continued
+                calls_all = all_calls(pool)
+                paths = covers[pool["name"]]
+                if quick and len(paths) > 350:
+                    paths = rnd.sample(paths, 350)
+                for h in paths:
+                    seqs.append(list(h) + [rnd.choice(calls_all) for _ in range(2 if quick else 4)])
+                counts["state_cover_behaviours"] = counts.get("state_cover_behaviours", 0) + len(paths)
             if REPLAY is not None:
                 seqs = [REPLAY[1]] if pool["name"] == REPLAY[0] else []
             traces = [replay_behaviour(pool, s, i) for i, s in enumerate(seqs, 1) if s]
